@@ -225,6 +225,11 @@ func (e *symEnv) eval(x ast.Expr) (lpoly, bool) {
 		case token.MUL:
 			return pMul(a, b), true
 		case token.QUO:
+			// integer division truncates: keep it as an opaque term quo(a,b) so that a truncated quotient that is
+			// multiplied afterwards is not mistaken for the exact one; float division is exact for our purposes
+			if bt, ok := e.info.TypeOf(v).Underlying().(*types.Basic); ok && bt.Info()&types.IsInteger != 0 {
+				return pSym("quo(" + a.String() + "," + b.String() + ")"), true
+			}
 			r, ok := pDiv(a, b)
 			if !ok {
 				e.err = "division by a sum: " + core.ExprStr(v)
